@@ -33,6 +33,22 @@ CHECKS["C14"] = dict(
          "otherwise reports inconclusive (exit 3).",
     design="1.2 and 3 (C14)", technique="symbolic execution of the real function on bit-vector proxies + SMT (z3 QF_BV) per length")
 
+CHECKS["C17"] = dict(
+    text="Bounded symbolic execution of RetryingClient.__init__/_retry/__getattr__ with a scripted inner client: "
+         "attempts, every attempt's outcome and retry_delay are symbolic, the (retry_for, do_not_retry_for) subset pair "
+         "is a shard; every path is compared with an independent specification of calls, sleeps and the identity of "
+         "the returned value / re-raised exception. All shards exhaust, so within the bound the decision table is "
+         "covered completely.",
+    note="Bound: attempts <= 3 (thorough 5), 4-class hierarchy, 81 disjoint mask pairs, 3-4 spellings. `sleep` is rebound "
+         "to a recorder. Trusted: z3, CrossHair int model, the 20-line specification in harness/C17.py.",
+    design="3 (C17)", technique=CH)
+CHECKS["C18"] = dict(
+    text="Bounded symbolic execution of every FallbackClient method over 1..4 scripted caches: hit mask, operation and "
+         "arguments symbolic; per-cache call logs and the result are compared with the first-hit / primary-only rule. "
+         "All shards exhaust.",
+    note="Bound: <= 4 caches following the Client miss contract (None, (None, None), {}). Trusted: z3, CrossHair models.",
+    design="3 (C18)", technique=CH)
+
 NOT_YET = {}
 
 NA_REASON_PENDING = "check not built yet in this session (planned; see DESIGN.md section 3)"
